@@ -5,7 +5,9 @@
    [typecheck_gen strict]: with [strict = true] a MAP body must return the element type it received.
    pytezos cannot compute the static result type of MAP over an EMPTY list (known finding
    "empty-map-retype": it returns the source list with its old class), so the simulation and preservation
-   theorems are proved for [typecheck_nr := typecheck_gen true] and refuted for [typecheck]. *)
+   theorems are proved for [typecheck_nr := typecheck_gen true] and refuted for [typecheck].
+   [strict = true] also rejects what is modelled but not yet proved: UPDATE / GET_AND_UPDATE on sets and maps, MAP on maps,
+   set/map literals (EMPTY_SET, EMPTY_MAP, MEM, GET, SIZE and ITER on sets/maps are in the proved fragment). *)
 From Coq Require Import List ZArith Bool Arith.
 From PV Require Import Base.Bytes Michelson.Instr.
 Import ListNotations.
@@ -93,7 +95,8 @@ Fixpoint has_literal (t : ty) : bool :=
   | _ => true
   end.
 
-(* instructions without sub-programs. [strict = true]: the proved fragment (no set/map instruction) *)
+(* instructions without sub-programs. [strict = true]: the proved fragment (sets and maps are read-only there:
+   EMPTY_SET/EMPTY_MAP, MEM, GET, SIZE, ITER; no UPDATE, GET_AND_UPDATE, MAP on maps, set/map literals) *)
 Definition tc_simple (strict : bool) (i : instr) (s : sty) : option sty :=
   match i with
   | I_EXEC => match s with
@@ -105,16 +108,14 @@ Definition tc_simple (strict : bool) (i : instr) (s : sty) : option sty :=
                    if ty_eqb a a' && has_literal a && negb (strict && has_coll a) then Some (TLambda b c :: r) else None
                | _ => None
                end
-  | I_EMPTY_SET k => if negb strict && comparable k then Some (TSet k :: s) else None
-  | I_EMPTY_MAP k v => if negb strict && comparable k then Some (TMap k v :: s) else None
-  | I_MEM => if strict then None else
-             match s with
-             | k :: TSet k' :: r | k :: TMap k' _ :: r => if ty_eqb k k' then Some (TBool :: r) else None
+  | I_EMPTY_SET k => if comparable k then Some (TSet k :: s) else None
+  | I_EMPTY_MAP k v => if comparable k then Some (TMap k v :: s) else None
+  | I_MEM => match s with
+             | k :: TSet k' :: r | k :: TMap k' _ :: r => if ty_eqb k k' && comparable k then Some (TBool :: r) else None
              | _ => None
              end
-  | I_GET => if strict then None else
-             match s with
-             | k :: TMap k' v :: r => if ty_eqb k k' then Some (TOption v :: r) else None
+  | I_GET => match s with
+             | k :: TMap k' v :: r => if ty_eqb k k' && comparable k then Some (TOption v :: r) else None
              | _ => None
              end
   | I_UPDATE => if strict then None else
@@ -157,7 +158,7 @@ Definition tc_simple (strict : bool) (i : instr) (s : sty) : option sty :=
   | I_CONS => match s with a :: TList b :: r => if ty_eqb a b then Some (TList b :: r) else None | _ => None end
   | I_SIZE => match s with
               | TString :: r | TBytes :: r | TList _ :: r => Some (TNat :: r)
-              | TSet _ :: r | TMap _ _ :: r => if strict then None else Some (TNat :: r)
+              | TSet _ :: r | TMap _ _ :: r => Some (TNat :: r)
               | _ => None
               end
   | I_ADD => match s with a :: b :: r => option_map (fun t => t :: r) (add_ty a b) | _ => None end
@@ -293,8 +294,8 @@ Fixpoint typecheck_gen (strict : bool) (i : instr) (s : sty) {struct i} : option
   | I_ITER c =>
       match (match s with
              | TList a :: r => Some (a, r)
-             | TSet a :: r => if strict then None else Some (a, r)
-             | TMap k v :: r => if strict then None else Some (TPair k v, r)
+             | TSet a :: r => Some (a, r)
+             | TMap k v :: r => Some (TPair k v, r)
              | _ => None
              end) with
       | Some (a, r) =>
